@@ -375,7 +375,7 @@ pub fn defs() -> Vec<CheckDef> {
         block: 256,
         gen: gen_c19,
         exec,
-        rule: "run = stream (valid, or with one channel fault) x schedule x snapshot kind {Clone of DecompressorOxide, rmp-serde serialise->bytes->deserialise of DecompressorOxide, Clone of InflateState, BlockBoundaryState + last 32 KiB copied into a new buffer}; the node is killed after call k and restarted from the snapshot - for schedules of <= 40 ops EVERY k (every inter-call suspension point / every block boundary), otherwise one seeded k; oracle = the uninterrupted run (output, final status, consumed, checksum) and, for boundary mode, the reference decoder's block list and the bit-buffer relation; non-trivial = more than one call / at least one boundary; distinct = shape fingerprint",
+        rule: "run = stream (valid, or with one channel fault) x schedule x snapshot kind {Clone of DecompressorOxide (clone(), or clone_from() into a new or a used object), rmp-serde serialise->bytes->deserialise of DecompressorOxide, Clone of InflateState (clone() / clone_from() into a new or a used-and-reset state), BlockBoundaryState + last 32 KiB copied into a new buffer}; the node is killed after call k and restarted from the snapshot - for schedules of <= 40 ops EVERY k (every inter-call suspension point / every block boundary), otherwise one seeded k; oracle = the uninterrupted run (output, final status, consumed, checksum) and, for boundary mode, the reference decoder's block list and the bit-buffer relation; non-trivial = more than one call / at least one boundary; distinct = shape fingerprint",
         shrink_cfg: &["probe"],
         shrink_blobs: false,
         assumptions: &[
